@@ -151,8 +151,12 @@ def trap_inputs():
             for b in vals:
                 lines.append('long long t%d = (%s) %s (%s);' % (k, a, op, b))
                 k += 1
+    # floating constants at and next to the limits of every integer type (conversion to integer is only defined strictly inside)
+    fvals = ['0x1p63', '0x1p64', '0x1p32', '0x1p31', '-0x1p63', '-0x1p31', '-0x1p63 - 2048.0', '0x1p63 - 1024.0', '0x1p64 - 2048.0', '0x1p64 + 4096.0', '18446744073709551616.0', '9223372036854775808.0',
+             '4294967296.0', '4294967295.5', '2147483648.0', '2147483647.5', '-2147483648.5', '-2147483649.0', '255.5', '256.0', '-128.5', '-129.0', '65535.5', '65536.0', '-0.5', '-1.0', '0x1p63f', '0x1p64f', '0x1p31f',
+             '(0.0 / 0.0)', '(1.0 / 0.0)', '(-1.0 / 0.0)', '1e19', '1e20f']
     for c in casts:
-        for a in vals:
+        for a in vals + fvals:
             lines.append('%s u%d = (%s)(%s);' % (c, k, c, a))
             lines.append('long long w%d = (long long)(%s)(%s);' % (k, c, a))
             k += 1
@@ -201,6 +205,23 @@ def run(tier):
     rng.shuffle(tk)
     for s, j in tk[:ntrunc]:
         inputs.append(('trunc', b''.join(mutate.tokens(s)[:j]), 'stdin'))
+    # declaration histories (every storage-class / scope / initialiser combination of C09, valid or not), one per input
+    from . import c09, c10
+    from .. import neg_catalogue
+    hs = list(c09.histories(3 if tier == 'quick' else 4))
+    rng.shuffle(hs)
+    for i, seq in enumerate(hs[:9000 if tier == 'quick' else 120000]):
+        inputs.append(('hist', ('void *vf_sink;\n' + c09.render(seq, i, asm=('lab%d' % i if i % 7 == 0 else None)) + '\n').encode(), 'stdin'))
+    # the negative catalogue in every placement context (C10 judges the verdict on the plain build; here the sanitizers watch the error paths)
+    nb = 1 if tier == 'quick' else 6
+    for ent in neg_catalogue.CAT:
+        kind, cls, text = ent[:3]
+        if kind == 'F':
+            inputs.append(('neg', text.encode('latin-1'), 'stdin'))
+            continue
+        for b in range(nb):
+            for ctx, fs, body in c10.instances(kind, text, rng):
+                inputs.append(('neg', c10.build('int base_only = 1;\n', ctx, fs, body).encode('latin-1'), 'stdin'))
     # batches
     B = 250
     batches = [(asan, inputs[i:i + B], True) for i in range(0, len(inputs), B)]
